@@ -21,6 +21,7 @@ DisjointOn(a, b) == \A env \in EnvsOf(a, b) : \A p \in Lat2 \X Lat2 : ~(In(a, QA
 ContainedOn(b, a) == \A env \in EnvsOf(a, b) : \A p \in Lat2 \X Lat2 : In(b, QAt(env, p[1], p[2])) => In(a, QAt(env, p[1], p[2]))
 Small2 == {p \in Prims2 : FreeVars(p) = {}}
 DisjU == {[k |-> "union", l |-> a, r |-> b, disjoint |-> TRUE] : a \in Small2, b \in {Tr(q, V2(-12, -12)) : q \in Small2}}
+         \cup {[k |-> "union", l |-> Par(V2(4, 4), V2(8, 4), V2(4, 8)), r |-> Cir(<<A0(-8), A1(-8, "t")>>, A1(1, "k")), disjoint |-> TRUE]}   \* parameter-dependent, declared disjoint
 ContC == {[k |-> "cut", l |-> a, r |-> b, contained |-> TRUE] : a \in {Par(V2(-12, -12), V2(12, -12), V2(-12, 12))}, b \in Small2}
          \cup {[k |-> "cut", l |-> Cir(V2(0, 0), A1(8, "k")), r |-> Cir(<<A0(1), A0(0)>>, A0(6)), contained |-> TRUE]}
 Transf == {Tr(a, t) : a \in Prims2 \cup {Bd(p) : p \in Prims2}, t \in TransVecs}
@@ -28,6 +29,7 @@ Transf == {Tr(a, t) : a \in Prims2 \cup {Bd(p) : p \in Prims2}, t \in TransVecs}
 Prods == {Pr(a, i) : a \in Prims2, i \in Ints} \cup {Pr(i, [k |-> "interval", v |-> "z", lo |-> A0(0), hi |-> A0(6)]) : i \in Ints}
 AttrExprs == IF Mode = "vol" THEN Basics \cup Bds \cup Transf \cup Prods \cup {u \in DisjU : DisjointOn(u.l, u.r)} \cup {c \in ContC : ContainedOn(c.r, c.l)}
              ELSE Basics \cup Bds \cup Transf \cup Prods \cup {x \in Depth1 : x.k \notin {"union", "cut", "and"} \/ x.l # x.r}
+                  \cup {u \in DisjU : FreeVars(u) # {} /\ DisjointOn(u.l, u.r)} \cup {c \in ContC : FreeVars(c) # {} /\ ContainedOn(c.r, c.l)}
 Rows == <<[t |-> 0, k |-> 1], [t |-> 2, k |-> 0], [t |-> 1, k |-> 2]>>
 BindVals == <<[t |-> 1, k |-> 2], [t |-> 2, k |-> 0]>>
 Subsets(S) == (SUBSET S) \ {{}}
